@@ -2,15 +2,18 @@
    (1) reference counting as a state machine over ALL histories inside the API contract (Refcount.v);
    (2) output-operand independence of the scalar layer (restated from C17: the field-by-field programs
        do not depend on the previous contents of the output nor on aliasing).
+   (3) output-operand independence of the interval layer (rational, dyadic and any scalar operations record):
+       the result written into ANY previous interval (a point or a proper interval) and under ANY aliasing of the
+       output with the inputs equals the result of the pure function (lemmas of IntervalArithProofs.v, property C15).
    Out-of-bounds accesses, use-after-free, undefined behaviour and leaks of the C runtime are OBSERVED by
    the sanitizer runs of every harness, not proved.  Theorem statements only. *)
 From Coq Require Import Arith List Bool ZArith.
-From LP Require Import Refcount RefcountProofs Scalar ScalarProofs.
+From LP Require Import Refcount RefcountProofs Scalar ScalarProofs IntervalArith IntervalArithProofs.
 Import ListNotations.
 
 (* the counter of every object equals the number of outstanding user references plus the contribution of
    the contexts pointing at it; liveness is "counter positive" - for every history of permitted calls *)
-Theorem C19_refcount_invariant : forall ops, Inv (fst (run ops)) (snd (run ops)).
+Theorem C19_refcount_invariant : forall ops, RefcountProofs.Inv (fst (run ops)) (snd (run ops)).
 Proof. exact run_inv. Qed.
 Print Assumptions C19_refcount_invariant.
 
@@ -57,3 +60,26 @@ Example C19_history :
   /\ live_count (fst (run ops)) 4 = 0
   /\ live_count (fst (run (firstn 8 ops))) 4 = 4.
 Proof. vm_compute. repeat split. Qed.
+
+(* output operands of the interval layer: S is the previous content of the output (pt_ok: a point interval keeps its
+   unused upper end at the scalar zero, as libpoly's constructors leave it), al the aliasing of the output with the inputs *)
+Theorem C19_dst_independent_interval_add : forall (T : Type) (O : sops T) al (S I1 I2 : itv T),
+  alias_ok_i al S I1 I2 -> pt_ok O S -> gi_add O al S I1 I2 = gi_add_pure O I1 I2.
+Proof. exact @gi_add_dst. Qed.
+Print Assumptions C19_dst_independent_interval_add.
+Theorem C19_dst_independent_interval_neg : forall (T : Type) (O : sops T) al (N I : itv T),
+  alias1_ok_i al N I -> pt_ok O N -> gi_neg O al N I = gi_neg_pure O I.
+Proof. exact @gi_neg_dst. Qed.
+Print Assumptions C19_dst_independent_interval_neg.
+Theorem C19_dst_independent_interval_sub : forall (T : Type) (O : sops T) al (S I1 I2 : itv T),
+  alias_ok_i al S I1 I2 -> pt_ok O S -> pt_ok O I2 -> gi_sub O al S I1 I2 = gi_sub_pure O I1 I2.
+Proof. exact @gi_sub_dst. Qed.
+Print Assumptions C19_dst_independent_interval_sub.
+Theorem C19_dst_independent_interval_mul : forall (T : Type) (O : sops T) al (P I1 I2 : itv T),
+  alias_ok_i al P I1 I2 -> pt_ok O P -> gi_mul O al P I1 I2 = gi_mul_pure O I1 I2.
+Proof. exact @gi_mul_dst. Qed.
+Print Assumptions C19_dst_independent_interval_mul.
+Theorem C19_dst_independent_interval_pow : forall (T : Type) (O : sops T) al (P I : itv T) (n : N),
+  alias1_ok_i al P I -> pt_ok O P -> gi_pow O al P I n = gi_pow_pure O I n.
+Proof. exact @gi_pow_dst. Qed.
+Print Assumptions C19_dst_independent_interval_pow.
